@@ -88,6 +88,7 @@ CHECKS = {
         technique="Kani wiring check of impl_from_par_iterator! against an executable specification stub of rayon's fold/reduce contract (bounded), Verus merge-tree lemma; real concurrency not applicable",
         text="Bounded (<= 3 items, <= 3 contiguous chunks, both bracketings, optional identities): every item is absorbed exactly once by the fold/reduce wiring "
              "(multiset recorder stubs), Min/Max exact, for f64 and &f64 sources. Under the assumed rayon contract the unbounded statement over all chunkings is C02+C11+C14 through the Verus merge-tree lemma with empty leaves. "
+             "The premises of that reduction (C02, C11, C14) are re-run by this check on the current tree and reported as C19.premise.* obligations; a failing premise is a C19 violation. "
              "Level `other`: bounded stand-in + lemma, never counted as proved.",
         note="A-RAYON (rayon's documented fold/reduce contract) is assumed and made executable in contracts/rayon_stub; threads, work stealing, thread counts and data races are NOT decided (Kani has no threads)."),
     "C14": dict(
